@@ -1283,3 +1283,340 @@ Lemma refund_once_fresh isender s0 ops c q :
   (count (is_reconv c q) (ilog s) <= 1)%nat /\
   ((0 < count (is_reconv c q) (ilog s))%nat -> count (is_sendevm c q) (ilog s) = 1%nat).
 Proof. intros R L. apply refund_once. apply inv_fresh; assumption. Qed.
+
+(* ------------------------------------------------------------------------------------------ *)
+(** * the bank invariant over reachable states; the refund clause with the guards that remain *)
+
+(* the bank invariant: no balance the model tracks is negative (the supply counters aside: they are sums) *)
+Definition NN (s : ist) : Prop := forall h k t, h <> Supply -> 0 <= ibal s (h, k, t).
+
+Lemma ladd_val l k d k' : ladd l k d k' = l k' + (if key_eqb k k' then d else 0).
+Proof. unfold ladd. destruct (key_eqb k k'); lia. Qed.
+
+Lemma key_eqb_eq a b : key_eqb a b = true -> a = b.
+Proof.
+  destruct a as [[a1 a2] a3], b as [[b1 b2] b3]. unfold key_eqb. rewrite !andb_true_iff, !Z.eqb_eq. intros [[-> ->] ->]. reflexivity.
+Qed.
+
+Lemma pay_NN s from to kind t amt s' : pay s from to kind t amt = Ok s' -> 0 <= amt -> NN s -> NN s'.
+Proof.
+  unfold pay. destruct (Z.ltb_spec (ibal s (from, kind, t)) amt) as [|Hge]; [discriminate|]. intros H Ha N; inversion H; subst s'. clear H.
+  intros h k x Hh. cbn [ibal with_acct with_bal]. rewrite !ladd_val. specialize (N h k x Hh).
+  destruct (key_eqb (from, kind, t) (h, k, x)) eqn:E1; destruct (key_eqb (to, kind, t) (h, k, x)) eqn:E2; try lia;
+    apply key_eqb_eq in E1; rewrite <- E1 in *; lia.
+Qed.
+
+Lemma mint_NN s to k t amt : 0 <= amt -> NN s -> NN (mint s to k t amt).
+Proof.
+  intros Ha N h k' x Hh. unfold mint. cbn [ibal with_bal]. rewrite !ladd_val. specialize (N h k' x Hh).
+  destruct (key_eqb (to, k, t) (h, k', x)); destruct (key_eqb (Supply, k, t) (h, k', x)) eqn:E2; try lia.
+  all: apply key_eqb_eq in E2; inversion E2; congruence.
+Qed.
+
+Lemma burn_NN s from k t amt s' : burn s from k t amt = Ok s' -> NN s -> NN s'.
+Proof.
+  unfold burn. destruct (Z.ltb_spec (ibal s (from, k, t)) amt) as [|Hge]; [discriminate|]. intros H N; inversion H; subst s'. clear H.
+  intros h k' x Hh. cbn [ibal with_bal]. rewrite !ladd_val. specialize (N h k' x Hh).
+  destruct (key_eqb (Supply, k, t) (h, k', x)) eqn:E2; [apply key_eqb_eq in E2; inversion E2; congruence|].
+  destruct (key_eqb (from, k, t) (h, k', x)) eqn:E1; [apply key_eqb_eq in E1; rewrite <- E1 in *; lia|lia].
+Qed.
+
+Lemma NN_same s s' : ibal s' = ibal s -> NN s -> NN s'.
+Proof. intros E N h k t Hh. rewrite E. apply N; exact Hh. Qed.
+
+Ltac nn :=
+  repeat match goal with
+  | H : bind _ _ = Ok _ |- _ => apply bind_ok in H; let x := fresh "x" in let P := fresh "P" in let Q := fresh "Q" in destruct H as (x & P & Q)
+  | H : pay (mint ?s ?a ?k ?t ?n) _ _ _ _ _ = Ok _, N : NN ?s |- _ =>
+      let M := fresh "M" in assert (M : NN (mint s a k t n)) by (apply mint_NN; [lia|exact N]); clear N
+  | H : pay ?s _ _ _ _ ?n = Ok ?s', N : NN ?s |- _ =>
+      let M := fresh "M" in assert (M : NN s') by (eapply pay_NN; [exact H|lia|exact N]); clear H
+  | H : burn ?s _ _ _ _ = Ok ?s', N : NN ?s |- _ =>
+      let M := fresh "M" in assert (M : NN s') by (eapply burn_NN; [exact H|exact N]); clear H
+  end.
+
+Lemma convert_coin_NN who t n s s' : convert_coin who t n s = Ok s' -> 0 <= n -> NN s -> NN s'.
+Proof.
+  unfold convert_coin. destruct (negb _); [discriminate|]. intros H Hn N. nn. inversion Q; subst. apply mint_NN; [lia|assumption].
+Qed.
+
+Lemma voucher_to_self_NN who k t n s s' : voucher_to_self who k t n s = Ok s' -> 0 <= n -> NN s -> NN s'.
+Proof. unfold voucher_to_self. intros H Hn N. nn. assumption. Qed.
+
+Section NNops.
+  Variable isender : Z -> Z -> Z.
+
+  Lemma send_from_evm_NN c a d n s s' : send_from_evm c a d n s = Ok s' -> NN s -> NN s'.
+  Proof.
+    unfold send_from_evm. destruct (Z.leb_spec n 0) as [|Hn]; [discriminate|].
+    destruct d as [|t|t| |t]; try discriminate; intros H N.
+    - nn. match goal with HQ : Ok _ = Ok _ |- _ => inversion HQ; subst end; assumption.
+    - destruct (negb _); [discriminate|]. unfold voucher_out in H. destruct (c =? t); nn; match goal with HQ : Ok _ = Ok _ |- _ => inversion HQ; subst end; assumption.
+  Qed.
+
+  Lemma send_plain_NN c a d n s s' : send_plain c a d n s = Ok s' -> NN s -> NN s'.
+  Proof.
+    unfold send_plain. destruct (Z.leb_spec n 0) as [|Hn]; [discriminate|].
+    destruct d as [|t|t| |t]; try discriminate; intros H N.
+    - nn. match goal with HQ : Ok _ = Ok _ |- _ => inversion HQ; subst end; assumption.
+    - nn. match goal with HQ : Ok _ = Ok _ |- _ => inversion HQ; subst end; assumption.
+    - destruct (negb _); [discriminate|]. unfold voucher_out in H. destruct (c =? t); nn; match goal with HQ : Ok _ = Ok _ |- _ => inversion HQ; subst end; assumption.
+    - nn. match goal with HQ : Ok _ = Ok _ |- _ => inversion HQ; subst end; assumption.
+  Qed.
+
+  Lemma transfer_recv_NN p s s' : transfer_recv p s = Ok s' -> NN s -> NN s'.
+  Proof.
+    unfold transfer_recv. destruct (Z.leb_spec (ip_amt p) 0) as [|Hn]; [discriminate|]. destruct (_ =? _); [discriminate|].
+    destruct (ip_denom p); cbn [voucher_asset]; intros H N; nn; assumption.
+  Qed.
+
+  Lemma memo_step_NN p s s' : memo_step isender p s = Ok s' -> NN s -> NN s'.
+  Proof.
+    unfold memo_step. intros H N. destruct (ip_memo p) as [| | |f v]; try (inversion H; subst; exact N); try discriminate.
+    destruct (Z.ltb_spec v 0) as [|Hv]; [discriminate|]. destruct (negb _); [discriminate|].
+    destruct (Z.ltb_spec (ibal s (isender (ip_src p) (ip_sender p), AFx, 0)) v) as [|Hge]; [discriminate|].
+    destruct f; inversion H; subst. intros h k x Hh. cbn [ibal with_log with_bal]. rewrite !ladd_val. specialize (N h k x Hh).
+    destruct (key_eqb (isender (ip_src p) (ip_sender p), AFx, 0) (h, k, x)) eqn:E1; destruct (key_eqb (Callee, AFx, 0) (h, k, x)); try lia;
+      apply key_eqb_eq in E1; rewrite <- E1 in *; lia.
+  Qed.
+
+  Lemma hook_recv_NN p s s' : hook_recv isender p s = Ok s' -> 0 < ip_amt p -> NN s -> NN s'.
+  Proof.
+    unfold hook_recv. intros H Hn N. apply bind_ok in H. destruct H as (s1 & Hconv & Hmemo).
+    apply (memo_step_NN _ _ _ Hmemo).
+    destruct (ip_denom p) as [|t|t| |t].
+    - inversion Hconv; subst; exact N.
+    - destruct (negb (ip_hex p)); [discriminate|]. cbn [voucher_asset] in Hconv.
+      apply bind_ok in Hconv. destruct Hconv as (v1 & Hv & Hc). apply bind_ok in Hc. destruct Hc as (v2 & Hcc & Hl).
+      inversion Hl; subst s1. apply (NN_same v2); [reflexivity|].
+      eapply convert_coin_NN; [exact Hcc|lia|]. eapply voucher_to_self_NN; [exact Hv|lia|exact N].
+    - destruct (negb (ip_hex p)); [discriminate|]. cbn [voucher_asset] in Hconv.
+      apply bind_ok in Hconv. destruct Hconv as (v1 & _ & Hc). discriminate.
+    - destruct (negb (ip_hex p)); [discriminate|]. cbn [voucher_asset] in Hconv.
+      apply bind_ok in Hconv. destruct Hconv as (v1 & _ & Hc). discriminate.
+    - destruct (negb (ip_hex p)); [discriminate|].
+      apply bind_ok in Hconv. destruct Hconv as (v2 & Hcc & Hl). inversion Hl; subst s1. apply (NN_same v2); [reflexivity|].
+      eapply convert_coin_NN; [exact Hcc|lia|exact N].
+  Qed.
+
+  Lemma recv_NN p s : NN s -> NN (fst (recv isender p s)).
+  Proof.
+    intros N. rewrite recv_unfold. destruct (negb _); [exact N|].
+    destruct (transfer_recv p s) as [c1|c1] eqn:Et; [|exact N].
+    destruct (hook_recv isender p c1) as [c2|c2] eqn:Eh; [|exact N]. cbn [fst].
+    assert (Hn : 0 < ip_amt p). { unfold transfer_recv in Et. destruct (Z.leb_spec (ip_amt p) 0); [discriminate|lia]. }
+    eapply hook_recv_NN; [exact Eh|exact Hn|]. eapply transfer_recv_NN; eassumption.
+  Qed.
+
+  Lemma refund_NN pk s s' : refund pk s = Ok s' -> 0 < p_amt pk -> NN s -> NN s'.
+  Proof.
+    unfold refund. intros H Hn N. destruct (p_denom pk) as [|t|t| |t]; try discriminate.
+    - nn. destruct (in_rel _ _ _); [discriminate|]. match goal with HQ : Ok _ = Ok _ |- _ => inversion HQ; subst end; assumption.
+    - apply bind_ok in H. destruct H as (s1 & P1 & H). apply bind_ok in H. destruct H as (s2 & P2 & H).
+      assert (N1 : NN s1) by (eapply pay_NN; [exact P1|lia|apply mint_NN; [lia|exact N]]).
+      assert (N2 : NN s2) by (eapply voucher_to_self_NN; [exact P2|lia|exact N1]).
+      destruct (in_rel _ _ _); [|inversion H; subst; exact N2].
+      apply bind_ok in H. destruct H as (s3 & P3 & H). inversion H; subst. apply (NN_same s3); [reflexivity|].
+      eapply convert_coin_NN; [exact P3|lia|]. apply (NN_same s2); [reflexivity|exact N2].
+    - assert (VB : forall x, voucher_back s (p_chan pk) (p_sender pk) t (p_amt pk) = Ok x -> NN x).
+      { unfold voucher_back. intros x Hx. destruct (_ =? _); nn; assumption. }
+      destruct (pair_on s VoucherMeta).
+      + apply bind_ok in H. destruct H as (s1 & P1 & H). apply bind_ok in H. destruct H as (s2 & P2 & H).
+        assert (N2 : NN s2) by (eapply voucher_to_self_NN; [exact P2|lia|apply VB; exact P1]).
+        destruct (in_rel _ _ _); [discriminate|]. inversion H; subst; exact N2.
+      + apply bind_ok in H. destruct H as (s1 & P1 & H). apply bind_ok in H. destruct H as (s2 & P2 & H).
+        apply bind_ok in H. destruct H as (s3 & P3 & H).
+        assert (N1 : NN s1) by (apply VB; exact P1).
+        assert (N2 : NN s2) by (eapply pay_NN; [exact P2|lia|exact N1]).
+        assert (N3 : NN s3) by (eapply pay_NN; [exact P3|lia|apply mint_NN; [lia|exact N2]]).
+        destruct (in_rel _ _ _); [|inversion H; subst; exact N3].
+        apply bind_ok in H. destruct H as (s4 & P4 & H). inversion H; subst. apply (NN_same s4); [reflexivity|].
+        eapply convert_coin_NN; [exact P4|lia|]. apply (NN_same s3); [reflexivity|exact N3].
+    - apply bind_ok in H. destruct H as (s1 & P1 & H).
+      assert (N1 : NN s1) by (eapply pay_NN; [exact P1|lia|exact N]).
+      destruct (in_rel _ _ _); [|inversion H; subst; exact N1].
+      apply bind_ok in H. destruct H as (s2 & P2 & H). inversion H; subst. apply (NN_same s2); [reflexivity|].
+      eapply convert_coin_NN; [exact P2|lia|]. apply (NN_same s1); [reflexivity|exact N1].
+  Qed.
+End NNops.
+
+Section Inv2.
+  Variable isender : Z -> Z -> Z.
+
+  Definition PP (s : ist) : Prop :=
+    (forall pk, In pk (commits s) -> 0 < p_amt pk) /\ (forall pk, In pk (sent s) -> 0 < p_amt pk).
+  (* the strengthened invariant: the bank invariant + every packet ever sent carries a positive amount *)
+  Definition inv2 (s : ist) : Prop := NN s /\ PP s.
+
+  Lemma memo_step_sent p s1 c2 : memo_step isender p s1 = Ok c2 -> sent c2 = sent s1.
+  Proof.
+    unfold memo_step. intros H.
+    destruct (ip_memo p) as [| | |f v]; try (inversion H; subst; reflexivity); try discriminate.
+    destruct (v <? 0); [discriminate|]. destruct (negb (has_acct s1 _)); [discriminate|]. destruct (_ <? _); [discriminate|].
+    destruct f; inversion H; subst. reflexivity.
+  Qed.
+
+  Lemma hook_recv_sent p s s' : hook_recv isender p s = Ok s' -> sent s' = sent s.
+  Proof.
+    unfold hook_recv. intros H. apply bind_ok in H. destruct H as (s1 & Hconv & Hmemo).
+    rewrite (memo_step_sent _ _ _ Hmemo).
+    destruct (ip_denom p) as [|t|t| |t].
+    - inversion Hconv; reflexivity.
+    - destruct (negb (ip_hex p)); [discriminate|]. cbn [voucher_asset] in Hconv.
+      apply bind_ok in Hconv. destruct Hconv as (v1 & Hv & Hc). apply bind_ok in Hc. destruct Hc as (v2 & Hcc & Hl).
+      inversion Hl; subst s1. cbn [sent with_log].
+      pose proof (voucher_to_self_proj _ _ _ _ _ _ Hv) as (_&_&_&_&C1&_).
+      pose proof (convert_coin_proj _ _ _ _ _ Hcc) as (_&_&_&_&C2&_). congruence.
+    - destruct (negb (ip_hex p)); [discriminate|]. cbn [voucher_asset] in Hconv.
+      apply bind_ok in Hconv. destruct Hconv as (v1 & _ & Hc). discriminate.
+    - destruct (negb (ip_hex p)); [discriminate|]. cbn [voucher_asset] in Hconv.
+      apply bind_ok in Hconv. destruct Hconv as (v1 & _ & Hc). discriminate.
+    - destruct (negb (ip_hex p)); [discriminate|].
+      apply bind_ok in Hconv. destruct Hconv as (v2 & Hcc & Hl). inversion Hl; subst s1. cbn [sent with_log].
+      pose proof (convert_coin_proj _ _ _ _ _ Hcc) as (_&_&_&_&C2&_). exact C2.
+  Qed.
+
+  Lemma recv_sent p s : sent (fst (recv isender p s)) = sent s.
+  Proof.
+    rewrite recv_unfold. destruct (negb _); [reflexivity|].
+    destruct (transfer_recv p s) as [c1|c1] eqn:Et; [|reflexivity].
+    destruct (hook_recv isender p c1) as [c2|c2] eqn:Eh; [|reflexivity]. cbn [fst].
+    rewrite (hook_recv_sent _ _ _ Eh). pose proof (transfer_recv_proj _ _ _ Et) as (_&_&_&_&S&_). exact S.
+  Qed.
+
+  Lemma cb_inv2 (cb : packet -> ist -> result ist) pk x x' :
+    (cb = on_timeout \/ exists ok, cb = fun pk => on_ack pk ok) ->
+    cb pk x = Ok x' -> 0 < p_amt pk -> NN x -> NN x' /\ commits x' = commits x /\ sent x' = sent x.
+  Proof.
+    intros Hcb H Hn N.
+    assert (Href : refund pk x = Ok x' -> NN x' /\ commits x' = commits x /\ sent x' = sent x).
+    { intros Hr. split; [eapply refund_NN; eassumption|].
+      destruct (refund_shape _ _ _ Hr) as [[_ (_&_&_&C&S&_)]|(t & _ & _ & _ & _ & C & S)]; auto. }
+    destruct Hcb as [->|[ok ->]]; [apply Href; exact H|].
+    unfold on_ack in H. destruct ok; [|apply Href; exact H]. inversion H; subst. repeat split. exact N.
+  Qed.
+
+  Lemma In_del_pk pk l c q : In pk (del_pk l c q) -> In pk l.
+  Proof. unfold del_pk. intros H. apply filter_In in H. tauto. Qed.
+
+  Lemma deliver_inv2 (cb : packet -> ist -> result ist) c q s :
+    (cb = on_timeout \/ exists ok, cb = fun pk => on_ack pk ok) ->
+    inv2 s -> inv2 (core_deliver cb c q s) /\ inv2 (raw_deliver cb c q s).
+  Proof.
+    intros Hcb (N & PC & PS). split.
+    - unfold core_deliver. destruct (find_pk (commits s) c q) as [pk|] eqn:F; [|repeat split; assumption].
+      assert (Hn : 0 < p_amt pk) by (apply PC; unfold find_pk in F; apply find_some in F; tauto).
+      unfold tx, branch, commit, discard.
+      destruct (cb pk (with_commits s (del_pk (commits s) c q))) as [x'|x'] eqn:E; cbn [fst]; [|repeat split; assumption].
+      destruct (cb_inv2 _ _ _ _ Hcb E Hn) as (N' & C & S); [exact N|]. cbn [commits sent with_commits] in C, S.
+      split; [exact N'|]. split; [intros p Hp; rewrite C in Hp; apply PC; eapply In_del_pk; exact Hp|rewrite S; exact PS].
+    - unfold raw_deliver. destruct (find_pk (sent s) c q) as [pk|] eqn:F; [|repeat split; assumption].
+      assert (Hn : 0 < p_amt pk) by (apply PS; unfold find_pk in F; apply find_some in F; tauto).
+      unfold tx, branch, commit, discard.
+      destruct (cb pk s) as [x'|x'] eqn:E; cbn [fst]; [|repeat split; assumption].
+      destruct (cb_inv2 _ _ _ _ Hcb E Hn N) as (N' & C & S).
+      split; [exact N'|]. split; [rewrite C; exact PC|rewrite S; exact PS].
+  Qed.
+
+  Lemma new_packet_PP s x chan a d n evm : same_proj s x -> 0 < n -> PP s -> PP (new_packet x chan a d n evm).
+  Proof.
+    intros (_&_&_&C&S&_) Hn (PC & PS). unfold PP, new_packet. cbn [commits sent]. rewrite C, S.
+    split; intros pk [<-|H]; cbn [p_amt]; auto.
+  Qed.
+
+  Lemma step_inv2 s o : inv2 s -> inv2 (step isender s o).
+  Proof.
+    intros I. pose proof I as (N & P).
+    destruct o as [ch a d n|ch a d n|p|c' q' ok|c' q'|c' q' ok|c' q'|t|]; cbn [step].
+    - unfold tx, branch, commit, discard. destruct (send_from_evm ch a d n s) as [s'|s'] eqn:E; cbn [fst]; [|exact I].
+      split; [eapply send_from_evm_NN; eassumption|].
+      destruct (send_evm_shape _ _ _ _ _ _ E) as (x & evm & SP & ->).
+      apply (new_packet_PP s); [exact SP| |exact P]. unfold send_from_evm in E. destruct (Z.leb_spec n 0); [discriminate|lia].
+    - unfold tx, branch, commit, discard. destruct (send_plain ch a d n s) as [s'|s'] eqn:E; cbn [fst]; [|exact I].
+      split; [eapply send_plain_NN; eassumption|].
+      destruct (send_plain_shape _ _ _ _ _ _ E) as (x & SP & ->).
+      apply (new_packet_PP s); [exact SP| |exact P]. unfold send_plain in E. destruct (Z.leb_spec n 0); [discriminate|lia].
+    - split; [apply recv_NN; exact N|]. unfold PP. rewrite recv_commits, recv_sent. exact P.
+    - apply (deliver_inv2 (fun pk => on_ack pk ok)); [right; eauto|exact I].
+    - apply (deliver_inv2 on_timeout); [left; reflexivity|exact I].
+    - apply (deliver_inv2 (fun pk => on_ack pk ok)); [right; eauto|exact I].
+    - apply (deliver_inv2 on_timeout); [left; reflexivity|exact I].
+    - exact I.
+    - exact I.
+  Qed.
+
+  Lemma inv2_run ops : forall s, inv2 s -> inv2 (run isender ops s).
+  Proof. induction ops as [|o r IH]; intros s I; [exact I|]. cbn [run fold_left]. apply IH. apply step_inv2. exact I. Qed.
+
+  (* what a fresh chain state satisfies: balances not negative, nothing sent yet *)
+  Lemma inv2_init s : (forall k, 0 <= ibal s k) -> commits s = [] -> sent s = [] -> inv2 s.
+  Proof. intros B C S. split; [intros h k t _; apply B|]. unfold PP. rewrite C, S. split; intros pk []. Qed.
+End Inv2.
+
+(* the guards that remain: conversion enabled (otherwise the delivery is refused: refund_refused_while_disabled), no voucher
+   metadata (companion effect of finding C19-2), and — only for a transfer routed by the prefix rule over a channel c that is not
+   the token's own — the escrow of c still holds the voucher *)
+Definition refund_guards2 (s : ist) (c t n : Z) : Prop :=
+  pair_on s VoucherMeta = false /\ pair_on s Erc20Switch && pair_on s t = true /\
+  (c = t \/ n <= ibal s (Escrow c, AVoucher, t)).
+
+Lemma refund_exact_reachable isender s0 ops1 c a t n s2 ops2 o ops3 :
+  inv s0 -> inv2 s0 ->
+  let s1 := run isender ops1 s0 in
+  let q := nextseq s1 c in
+  send_from_evm c a (DAlias t) n s1 = Ok s2 -> 0 <= a -> 0 <= c ->
+  forallb (quiet c q) ops2 = true ->
+  let s3 := run isender ops2 s2 in
+  refund_guards2 s3 c t n ->
+  o = Timeout c q \/ o = Ack c q false ->
+  let s4 := step isender s3 o in
+  let s5 := run isender ops3 s4 in
+  ibal s2 (a, AErc, t) = ibal s1 (a, AErc, t) - n /\
+  ibal s4 (a, AErc, t) = ibal s3 (a, AErc, t) + n /\
+  (forall k x, (k, x) <> (AErc, t) -> ibal s4 (a, k, x) = ibal s3 (a, k, x)) /\
+  in_rel (rel s4) c q = false /\ find_pk (commits s4) c q = None /\
+  count (is_reconv c q) (ilog s5) = 1%nat /\ in_rel (rel s5) c q = false.
+Proof.
+  intros Hinv Hinv2. cbn zeta. intros Hsend Ha Hc Hquiet (G1 & G2 & G3) Ho.
+  apply (refund_exact_over_histories isender s0 ops1 c a t n s2 ops2 o ops3); try assumption.
+  assert (I2 : inv2 s2).
+  { pose proof (step_inv2 isender _ (SendFromEvm c a (DAlias t) n) (inv2_run isender ops1 s0 Hinv2)) as H.
+    cbn [step] in H. unfold tx, branch, commit in H. rewrite Hsend in H. exact H. }
+  destruct (inv2_run isender ops2 s2 I2) as (N3 & _).
+  unfold refund_guards. repeat split; try assumption; apply N3; unfold ModTransfer, Supply; lia.
+Qed.
+
+Definition nv_fx : inpacket :=
+  {| ip_src := 7; ip_dst := 0; ip_sender := 0; ip_denom := DFx; ip_amt := 20; ip_addr_ok := true; ip_hex := false; ip_recv := 2; ip_memo := NoMemo |}.
+Definition nv_own : inpacket :=
+  {| ip_src := 7; ip_dst := 0; ip_sender := 0; ip_denom := DOwn 10; ip_amt := 25; ip_addr_ok := true; ip_hex := true; ip_recv := 2; ip_memo := MemoCall false 0 |}.
+Definition nv_ops1 : list op := [Recv nv_fx].
+Definition nv_ops2 : list op :=
+  [Recv nv_own; SendFromEvm 0 0 (DAlias 0) 40; TogglePair 5; Timeout 0 2; SendPlain 0 2 DFx 5; AckRaw 0 2 false].
+Definition nv_ops3 : list op := [TimeoutRaw 0 1; AckRaw 0 1 false; Timeout 0 1; ExportImport; TimeoutRaw 0 1].
+
+Lemma ex_state_inv2 : inv2 ex_state.
+Proof.
+  apply inv2_init; try reflexivity. intros k. unfold ex_state, ex_bal. cbn [ibal].
+  repeat match goal with |- context [key_eqb ?a ?b] => destruct (key_eqb a b) end; lia.
+Qed.
+
+(* a concrete history that satisfies EVERY premise of the universal theorem, with the conclusion's numbers *)
+Lemma refund_exact_nonvacuous :
+  let s1 := run ex_isender nv_ops1 ex_state in
+  let s2 := step ex_isender s1 (SendFromEvm 0 0 (DAlias 0) 30) in
+    inv ex_state /\ inv2 ex_state /\
+    send_from_evm 0 0 (DAlias 0) 30 s1 = Ok s2 /\ nextseq s1 0 = 1 /\
+    forallb (quiet 0 1) nv_ops2 = true /\
+    refund_guards2 (run ex_isender nv_ops2 s2) 0 0 30 /\
+    let s3 := run ex_isender nv_ops2 s2 in
+    let s4 := step ex_isender s3 (Timeout 0 1) in
+    let s5 := run ex_isender nv_ops3 s4 in
+    ibal s1 (0, AErc, 0) = 500 /\ ibal s2 (0, AErc, 0) = 470 /\ ibal s3 (0, AErc, 0) = 470 /\ ibal s4 (0, AErc, 0) = 500 /\
+    ibal s3 (2, AErc, 10) = 25 /\ length (commits s3) = 2%nat /\
+    in_rel (rel s4) 0 1 = false /\ find_pk (commits s4) 0 1 = None /\ length (commits s4) = 1%nat /\
+    count (is_reconv 0 1) (ilog s5) = 1%nat /\ ibal s5 (0, AErc, 0) = 500.
+Proof.
+  cbn zeta. split; [apply inv_fresh; reflexivity|]. split; [exact ex_state_inv2|].
+  split; [vm_compute; reflexivity|]. vm_compute. repeat split; try reflexivity. left; reflexivity.
+Qed.
